@@ -377,6 +377,8 @@ func (e *Engine) runExtra(name, prop string) []*Obligation {
 		return e.globalFrameScan(prop)
 	case "immutable-fields":
 		return e.immutableFieldScan(prop)
+	case "own-errors":
+		return e.ownErrorsScan(prop)
 	case "grammar-values":
 		return e.grammarScan(prop)
 	case "yyparse-bounded":
